@@ -37,9 +37,9 @@ structure S where
 
 def init : S := {}
 
-def S.mmx (p : S) (wsCodes : List Nat) : MMX :=
+def S.mmx (p : S) (wsCodes : List Nat) (json : Bool := false) : MMX :=
   { nCls := p.names.size, cname := fun c => p.names.getD c [], feats := fun c => p.feats.getD c [],
-    ws := fun c => wsCodes.contains c.toNat }
+    ws := fun c => wsCodes.contains c.toNat, idText := if json then (fun s => s.drop 1) else (fun s => s) }
 
 def parseFeat (t : String) : Option FInfo :=
   match t.splitOn ":" with
